@@ -1,4 +1,189 @@
+import IpcHub.Drv.Util
+import IpcHub.Drv.C09
+import IpcHub.Model.HlsInst
+import IpcHub.Spec.HlsOracle
 namespace IpcHub.Drv.C10
-/-- placeholder: no model built for this property yet -/
-def handle (_ : List String) : String := "bad-op"
+open IpcHub.Ts IpcHub.Hls IpcHub.Drv IpcHub.Drv.C09
+
+def cfg : Hls.Cfg := Hls.genCfg
+
+/-- one event of a run (see harness/cmd/c10) -/
+inductive Ev
+  | frame (f : AvFrame)
+  | seg (seq : Nat) (bytes : List UInt8)                      -- S: a segment became listed; bytes fetched through Segment(seq)
+  | query (m3u8 : Option (List Char)) (seqs : List Nat) (durs : List Int) (hdrs : List Bool)
+          (cur : Option (Nat × Int × Int)) (stable : Bool) (files : Option (List Nat))
+  | hold (seq : Nat) (ok : Bool)
+  | read (seq : Nat) (bytes : Option (List UInt8))
+  | curBytes (bytes : List UInt8)
+
+def splitList (s : String) (sep : String) : List String :=
+  if s = "-" ∨ s = "" then [] else s.splitOn sep
+
+def parseEv (s : String) : Option Ev :=
+  match s.splitOn ":" with
+  | ["S", seq, h] => match seq.toNat?, hexToBytes h with
+    | some n, some b => some (.seg n b) | _, _ => none
+  | ["Q", m, seqs, durs, hdrs, cs, cd, cst, stable, files] =>
+    let m3 := if m = "ERR" then some none else (hexToChars m).map some
+    let cur := if cs = "-" then some none else
+      match cs.toNat?, cd.toInt?, cst.toInt? with
+      | some a, some b, some c => some (some (a, b, c)) | _, _, _ => none
+    match m3, (splitList seqs ";").mapM String.toNat?, (splitList durs ";").mapM String.toInt?, cur,
+          (if files = "x" then some none else ((splitList files ";").mapM String.toNat?).map some) with
+    | some m3, some seqs, some durs, some cur, some files =>
+      some (.query m3 seqs durs ((splitList hdrs ";").map (· = "1")) cur (stable = "1") files)
+    | _, _, _, _, _ => none
+  | ["H", seq, ok] => seq.toNat?.map fun n => .hold n (ok = "1")
+  | ["R", seq, h] =>
+    match seq.toNat? with
+    | some n => if h = "ERR" then some (.read n none) else (hexToBytes h).map fun b => .read n (some b)
+    | none => none
+  | ["C", h] => (hexToBytes h).map .curBytes
+  | _ => (parseAv s).map .frame
+
+structure St where
+  g        : Option Gen                 -- none after a panic
+  srcs     : List IpcHub.TsSpec.Src     -- source frames so far (reversed)
+  segs     : List (Nat × List UInt8)    -- S events so far (reversed): what the implementation served
+  held     : List (Nat × List UInt8)    -- readers taken: the bytes the segment had then (from S)
+  corr     : Option String              -- first model/implementation difference
+  spec     : Option String              -- first specification failure
+  panicked : Bool
+
+def noteCorr (st : St) (msg : String) : St := if st.corr.isSome then st else { st with corr := some msg }
+def noteSpec (st : St) (msg : String) : St := if st.spec.isSome then st else { st with spec := some msg }
+
+/-- all renderings of the playlist when a duration is an exact rounding tie (`%.3f` of a double) -/
+def m3u8Variants (path : List Char) (pl : List Seg) (token : List Char) : List (List Char) :=
+  -- a tied segment (ticks % 90 = 45) may be printed one millisecond lower: shorten it by one tick
+  -- (this never changes the target duration: 45 ticks above a multiple of 90 is not a whole second)
+  let choices : List (List Seg) := pl.foldr (fun s acc =>
+      if s.dur.toNat % 90 = 45 then acc.flatMap (fun l => [s :: l, { s with dur := s.dur - 1 } :: l])
+      else acc.map (s :: ·)) [[]]
+  choices.filterMap fun l => Hls.m3u8 cfg path l token
+
+def step (_p : IpcHub.TsSpec.Params) (m : Meta) (frag rate : Nat) (path token : List Char) (st : St) : Ev → St
+  | .frame f =>
+    match st.g with
+    | none => st
+    | some g =>
+      let st := { st with srcs := (srcOf f).reverse ++ st.srcs }
+      match packetize cfg.ts m f with
+      | none => { st with g := none, panicked := true }
+      | some none => st
+      | some (some tf) =>
+        match Hls.writeFrame cfg frag rate g tf with
+        | none => { st with g := none, panicked := true }
+        | some g' => { st with g := some g' }
+  | .seg seq bytes =>
+    let st := { st with segs := (seq, bytes) :: st.segs }
+    match st.g with
+    | none => st
+    | some g =>
+      match Hls.segment cfg g.playlist seq with
+      | none => noteCorr st s!"segment-{seq}-not-listed-in-model"
+      | some mb => if mb == bytes then st else noteCorr st s!"segment-{seq}-bytes:{cmpBytes mb bytes}"
+  | .query m3 seqs durs hdrs cur stable files =>
+    let st := if stable then st else noteSpec st "segment-changed-after-listing"
+    -- specification: the served playlist
+    let st :=
+      match m3 with
+      | none => st
+      | some text =>
+        match IpcHub.HlsSpec.checkPlaylist 3 path token text with
+        | .error e => noteSpec st e
+        | .ok listed =>
+          let st := if listed.all (fun q => st.segs.any (·.1 = q)) then st else noteSpec st "playlist-uri-unresolved"
+          let st := if listed ≠ seqs then noteSpec st "playlist-not-most-recent" else st
+          match cur with
+          | some (cs, _, _) => if listed.getLast? ≠ some (cs - 1) then noteSpec st "playlist-not-most-recent" else st
+          | none => st
+    -- bounded storage: files on disk = listed ∪ open
+    let st :=
+      match files with
+      | none => st
+      | some fs =>
+        let want := seqs ++ (match cur with | some (cs, _, _) => [cs] | none => [])
+        if fs.length > 4 then noteSpec st "storage-unbounded"
+        else if fs ≠ want then noteSpec st "storage-files-differ-from-listing" else st
+    -- correspondence with the model
+    match st.g with
+    | none => st
+    | some g =>
+      let st := if g.playlist.map (·.seq) ≠ seqs then noteCorr st s!"listed-seqs model={g.playlist.map (·.seq)} impl={seqs}" else st
+      let st := if g.playlist.map (·.dur) ≠ durs then noteCorr st s!"listed-durations model={g.playlist.map (·.dur)} impl={durs}" else st
+      let st := if g.playlist.map (·.seqHdr) ≠ hdrs then noteCorr st "listed-discontinuity-flags" else st
+      let st := if (g.current.map fun s => (s.seq, s.dur, s.start)) ≠ cur then
+          noteCorr st s!"current model={g.current.map fun s => (s.seq, s.dur, s.start)} impl={cur}" else st
+      match m3, m3u8Variants path g.playlist token with
+      | none, [] => st
+      | some text, vs => if vs.contains text then st else noteCorr st "m3u8-text"
+      | none, _ :: _ => noteCorr st "m3u8-error-but-model-serves"
+  | .hold seq ok =>
+    match st.segs.find? (·.1 = seq) with
+    | some (_, b) => if ok then { st with held := (seq, b) :: st.held } else noteSpec st "listed-segment-not-served"
+    | none => if ok then noteCorr st "reader-for-unknown-segment" else st
+  | .read seq bytes =>
+    match st.held.find? (·.1 = seq), bytes with
+    | some (_, b), some r => if r == b then st else noteSpec st "read-not-stable"
+    | some _, none => noteSpec st "read-not-stable"
+    | none, _ => st
+  | .curBytes bytes =>
+    match st.g with
+    | none => st
+    | some g =>
+      let st := { st with segs := (g.seqNo, bytes) :: st.segs }
+      match g.current with
+      | none => st
+      | some s => if segBytes cfg s == bytes then st else noteCorr st s!"current-bytes:{cmpBytes (segBytes cfg s) bytes}"
+
+/-- the per-segment and cross-segment clauses, on the bytes the implementation served -/
+def finalSpec (p : IpcHub.TsSpec.Params) (st : St) (complete : Bool) : Except String Unit := do
+  let segs := st.segs.reverse
+  let mut pes : List IpcHub.HlsSpec.SegPes := []
+  for (seq, b) in segs do
+    let sp ← IpcHub.HlsSpec.demuxSegment b
+    -- the audio-side reap may open a segment in the middle of a GOP (known, reported per class)
+    if seq > 1 ∧ ¬ IpcHub.HlsSpec.startsWithKey p sp then
+      -- class by the cause, computed from the input through the model: was this segment opened by
+      -- the audio-side reap (duration ≥ 2 × fragment while a GOP is still running)?
+      let byAudio := match st.g with
+        | some g => ((g.deleted ++ g.playlist ++ g.current.toList).find? (·.seq = seq)).map (·.byAudio)
+        | none => none
+      throw (if byAudio = some true then "segment-not-starting-with-key:audio-side-reap"
+             else "segment-not-starting-with-key")
+    pes := pes ++ [sp]
+  if ¬ IpcHub.HlsSpec.consecutive (segs.map (·.1)) then throw "segment-numbers-not-consecutive"
+  IpcHub.HlsSpec.checkExactlyOnce p st.srcs.reverse pes complete
+
+/-- `run frag=<n> rate=<n> path=<hex> token=<hex> sps=<hex> pps=<hex> asc=<…> <event>…`
+    → `model=<ok|diff:…> panic=<0|1> spec=<ok|fail:…>` -/
+def handle : List String → String
+  | "run" :: toks =>
+    match kvOf "frag=" toks >>= String.toNat?, kvOf "rate=" toks >>= String.toNat?,
+          kvOf "path=" toks >>= hexToChars, kvOf "token=" toks >>= hexToChars,
+          kvOf "sps=" toks >>= hexToBytes, kvOf "pps=" toks >>= hexToBytes, kvOf "asc=" toks >>= parseAsc with
+    | some frag, some rate, some path, some token, some sps, some pps, some asc =>
+      match (toks.filter (fun t => ¬ t.contains '=')).mapM parseEv with
+      | none => "bad-op"
+      | some evs =>
+        let m : Meta := { sps, pps, asc }
+        let p : IpcHub.TsSpec.Params :=
+          match asc with
+          | some a => { sps, pps, aot := a.objectType,
+                        srIndex := (if a.extSampleRate > 0 then a.extSamplingIndex else a.samplingIndex),
+                        chanCfg := a.channelConfig }
+          | none => { sps, pps, aot := 0, srIndex := 0, chanCfg := 0 }
+        let st0 : St := { g := some Hls.init, srcs := [], segs := [], held := [], corr := none, spec := none, panicked := false }
+        let st := evs.foldl (step p m frag rate path token) st0
+        let complete := evs.any (fun e => match e with | .curBytes _ => true | _ => false)
+        let spec := match st.spec with
+          | some e => "fail:" ++ e
+          | none => if st.panicked then "skip" else IpcHub.HlsSpec.verdict (finalSpec p st complete)
+        let model := match st.corr with | some e => "diff:" ++ e.replace " " "_" | none => "ok"
+        s!"model={model} panic={boolStr st.panicked} spec={spec}"
+    | _, _, _, _, _, _, _ => "bad-op"
+  | _ => "bad-op"
+
 end IpcHub.Drv.C10
